@@ -208,6 +208,107 @@ func sampleAll(r *mc.Run, k, n int) {
 	}
 }
 
+// draw: the composition of path selection with the random primitives. Fresh
+// clients (none in interleaved mode) and a fixed path menu; every vector of
+// three scripted random words (12 values each: every residue modulo 1..4 equally
+// often) is enumerated and the assignment of paths to clients tallied. Over the
+// whole enumeration every set of distinct paths must be probed equally often,
+// whatever algorithm is used - in particular no offered path (fingerprint-less
+// or not) may be handed out outside the draw.
+func draw(r *mc.Run) {
+	pl := pool()
+	groups, _ := r.Extra["uniform_groups"].(map[string][]string)
+	if groups == nil {
+		groups = map[string][]string{}
+	}
+	for _, nclients := range []int{1, 2} {
+		for _, menu := range [][]int{{0, 1}, {5, 0}, {0, 5}, {5, 0, 1}, {0, 1, 2}, {1, 5, 2, 0}} {
+			if !r.Mine() {
+				continue
+			}
+			scen := fmt.Sprintf("draw_clients=%d_menu=%v", nclients, menu)
+			// all subsets of offered paths of the size of the participating clients (the
+			// statement asks for distinct paths drawn uniformly; which client gets which
+			// of the drawn paths is left to the implementation)
+			var keys []string
+			var rec func(cur []int, from int)
+			rec = func(cur []int, from int) {
+				if len(cur) == min(nclients, len(menu)) {
+					c := append([]int{}, cur...)
+					sort.Ints(c)
+					k := fmt.Sprintf("n_%s_paths=%v", scen, c)
+					keys = append(keys, k)
+					if _, ok := r.Extra[k]; !ok {
+						r.Extra[k] = int64(0)
+					}
+					return
+				}
+				for i := from; i < len(menu); i++ {
+					rec(append(append([]int{}, cur...), menu[i]), i+1)
+				}
+			}
+			rec(nil, 0)
+			groups[scen] = keys
+			for v := 0; v < 12*12*12; v++ {
+				x := &mc.X{}
+				world.Run(r.T, x, func(w *world.World) {
+					cs := make([]*client.SCIONClient, nclients)
+					for i := range cs {
+						cs[i] = &client.SCIONClient{Log: w.Log, DSCP: uint8(i + 1), InterleavedMode: i%2 == 0, Filter: &kit.RecFilter{}}
+					}
+					var ps []snet.Path
+					byHop := map[netip.AddrPort]int{}
+					for _, k := range menu {
+						ps = append(ps, pl[k].spec.SnetPath(kit.CliIA, kit.SrvIA, net.UDPAddrFromAddrPort(pl[k].hop)))
+						byHop[pl[k].hop] = k
+					}
+					var words []uint32
+					for j, vv := 0, v; j < 3; j, vv = j+1, vv/12 {
+						base := uint32(0xfffffff0)
+						words = append(words, base-(base-uint32(vv%12))%12)
+					}
+					w.Rand.Script = words
+					local := udp.UDPAddr{IA: kit.CliIA, Host: &net.UDPAddr{IP: kit.CliHost.AsSlice()}}
+					remote := udp.UDPAddr{IA: kit.SrvIA, Host: &net.UDPAddr{IP: kit.SrvHost.AsSlice(), Port: kit.SrvPort}}
+					ctx, cancel := context.WithTimeout(context.Background(), time.Second)
+					th := w.Go("measure", func() { client.MeasureClockOffsetSCION(ctx, w.Log, cs, local, remote, ps) })
+					w.Settle()
+					w.CheckPanics()
+					assign := make([]int, min(nclients, len(menu)))
+					for i := range assign {
+						assign[i] = -1
+					}
+					for _, d := range w.Net.SentSince(0) {
+						pr, err := kit.Parse(d.Data)
+						if err != nil {
+							continue
+						}
+						who := int(pr.SCION.TrafficClass>>2) - 1
+						if k, ok := byHop[d.To]; ok && who >= 0 && who < len(assign) && assign[who] == -1 {
+							assign[who] = k
+						}
+					}
+					cancel()
+					for i := 0; i < 5 && !th.Finished(); i++ {
+						w.Advance(time.Second)
+					}
+					set := append([]int{}, assign...)
+					sort.Ints(set)
+					key := fmt.Sprintf("n_%s_paths=%v", scen, set)
+					if _, ok := r.Extra[key]; !ok {
+						r.Fail("draw", "draw-assignment-impossible", fmt.Sprintf("%s, words %v: clients probed paths %v, which are not distinct offered paths", scen, words, assign), nil)
+						return
+					}
+					r.Extra[key] = r.Extra[key].(int64) + 1
+				})
+				r.Evals++
+				r.Distinct++
+			}
+		}
+	}
+	r.Extra["uniform_groups"] = groups
+}
+
 // ---------------------------------------------------------------- part 1
 
 // path menus: indices into a pool of five distinguishable paths plus one
@@ -517,6 +618,9 @@ func TestCheck(t *testing.T) {
 			return
 		}
 		r.Explore(mc.Config{Name: "paths", Bound: mc.Pick(r, 3, 4)}, program(r))
-		r.Extra["rule"] = "two rounds of MeasureClockOffsetSCION with 1..3 real SCIONClients (each interleaved or not) against the real SCION listener; offered path sets from an 11-entry menu (0..4 paths, a duplicate fingerprint, a fingerprint-less path); random words scripted so that every RandIntn result is reachable; completion order of the per-path exchanges, per-path loss and per-exchange rejection (duplicated unsynchronised reply: the attempt fails at once, an interleaved client retries within the round) chosen by the explorer; all executions within 3 (4) deviations"
+		if !r.Replaying() {
+			draw(r)
+		}
+		r.Extra["rule"] = "two rounds of MeasureClockOffsetSCION with 1..3 real SCIONClients (each interleaved or not) against the real SCION listener; offered path sets from an 11-entry menu (0..4 paths, a duplicate fingerprint, a fingerprint-less path); random words scripted so that every RandIntn result is reachable; completion order of the per-path exchanges, per-path loss and per-exchange rejection (duplicated unsynchronised reply: the attempt fails at once, an interleaved client retries within the round) chosen by the explorer; all executions within 3 (4) deviations; composition of selection and random primitives: 1 and 2 fresh clients x 6 menus (with and without the fingerprint-less path) x all 12^3 vectors of scripted random words, every subset of offered paths of the right size must be probed equally often"
 	})
 }
